@@ -29,8 +29,6 @@ NOT_APPLICABLE = {
     "C30": _NB + "verified monitor for batch schema conformance (like C53/C29) was not built",
     "C31": _NB + "dynamic filter generations / bounds need a small-step model (like C15/C16) plus join/TopK harness",
     "C32": _NB + "per-function specifications for ~50 scalar functions were not written",
-    "C35": _NB + "a builder was working on the proto enum-table translator (translators/rs_enummap2coq.py) when time ran out; files may be partial and are not enabled",
-    "C36": _NB + "see C35",
     "C37": _NB + "substrait producer/consumer tables would use the same translator approach as C35",
     "C45": _NB + "FFI wrappers would be compared with native components using the C07/C09/C01 models",
     "C50": _NB + "unbounded-input progress needs prefix-monotonicity models of the streaming operators",
